@@ -350,6 +350,32 @@ pub fn run(tier: &str, seed: u64) -> Report {
             nondates.push(format!("am {}. Januar zweitausendneunzehn, f\u{fc}nf nach zw\u{f6}lf {}", n, "\u{65e5}".repeat(n)));
         }
     }
+    // strings in the exact RFC 3339 layout whose month or day field is impossible (00, 13+, 32+): the calendar date they
+    // would have to start with does not exist, so they are refused (a structural fast path that only checks upper bounds
+    // lets month / day 00 through).  Days that merely do not exist in that month (02-30, 04-31) are NOT demanded to be refused:
+    // the property speaks of the ISO 8601 date syntax, and the unchanged constructors accept them
+    let mut impossible: Vec<String> = Vec::new();
+    for (mo, d) in [("00", "10"), ("01", "00"), ("00", "00"), ("13", "01"), ("01", "32"), ("99", "99")] {
+        for tail in ["T00:00:00Z", "T23:59:59+00:00", "T12:30:00.5-08:00"] {
+            impossible.push(format!("2019-{}-{}{}", mo, d, tail));
+            impossible.push(format!("0000-{}-{}{}", mo, d, tail));
+        }
+    }
+    for s in &impossible {
+        for ctor in 0..3u8 {
+            for owned in [false, true] {
+                cases.push(Case::Time { ctor, owned, text: s.clone(), expect_ok: Some(false), class: "rfc3339-layout-with-impossible-month-or-day".into() });
+            }
+        }
+    }
+    // RFC 3339 allows a seconds field of 60 (leap seconds; section 5.8 has these very examples): upper-case T and Z, accepted
+    for s in ["1990-12-31T23:59:60Z", "1990-12-31T15:59:60-08:00", "2016-12-31T23:59:60Z", "2016-12-31T23:59:60.5Z", "2015-06-30T23:59:60+00:00", "1972-06-30T23:59:60.123456789Z"] {
+        for ctor in 0..3u8 {
+            for owned in [false, true] {
+                cases.push(Case::Time { ctor, owned, text: s.to_string(), expect_ok: Some(true), class: "rfc3339-strict".into() });
+            }
+        }
+    }
     // the fixed catalogue goes to all three constructors in both forms; random strings are spread over them
     let fixed = 36.min(nondates.len());
     for s in nondates.iter().take(fixed) {
@@ -407,4 +433,4 @@ pub fn replay(case: &Value) -> Report {
     r
 }
 
-pub const RULE: &str = "CustomClaim::try_from: ALL strings of length 0..=4 over the 13 letters of the reserved keys plus 'E', space and NUL (69 905 keys) x the three constructor forms (&str, (&str,T), (String,T)); ALL strings of length 1..3 (thorough 4) over those 13 letters plus 19 separator / quote characters (, ; | : . space TAB LF / - _ quotes brackets braces: what a joined or packed representation of the reserved list contains); ALL 18 278 lower-case ASCII strings of length 1..3; a dictionary of 75 names from neighbouring specifications (kid, wpk, typ, nonce, scope, email ...) x six forms; ~50 decorated variants (case, whitespace, NUL, zero-width, homoglyphs, reversed, truncated, extended, and three-character look-alikes under narrowing to 7/8/16 bits or under (a<<16|b<<8|c) bit-packing) of each of the seven keys x six forms/value types; 20 000 (thorough 2 000 000) random Unicode keys; oracle: fails with the reserved-key error iff the key is literally one of the seven, otherwise succeeds keeping key and value. Time constructors (ExpirationClaim, NotBeforeClaim, IssuedAtClaim x &str/String): 19 instants (incl. 0000-01-01, 0001-01-01, 1969, 9999-12-31T23:59:59) x UTC offsets -23:59..+23:59 (every 7th plus the extremes; thorough: all) x 0..9 fractional digits, 'Z' and '-00:00' forms must be accepted and kept verbatim (also read back through a built token); strings outside a deliberately broad recogniser of ISO 8601 date prefixes (optional sign + >= 4 digits) must be refused — incl. long ones whose multi-byte characters straddle every byte offset up to 130, and a panic is not a refusal; lenient renderings and possibly-date strings are recorded without verdict. distinct_nontrivial = distinct (class, form/constructor, key or text shape) tuples";
+pub const RULE: &str = "CustomClaim::try_from: ALL strings of length 0..=4 over the 13 letters of the reserved keys plus 'E', space and NUL (69 905 keys) x the three constructor forms (&str, (&str,T), (String,T)); ALL strings of length 1..3 (thorough 4) over those 13 letters plus 19 separator / quote characters (, ; | : . space TAB LF / - _ quotes brackets braces: what a joined or packed representation of the reserved list contains); ALL 18 278 lower-case ASCII strings of length 1..3; a dictionary of 75 names from neighbouring specifications (kid, wpk, typ, nonce, scope, email ...) x six forms; ~50 decorated variants (case, whitespace, NUL, zero-width, homoglyphs, reversed, truncated, extended, and three-character look-alikes under narrowing to 7/8/16 bits or under (a<<16|b<<8|c) bit-packing) of each of the seven keys x six forms/value types; 20 000 (thorough 2 000 000) random Unicode keys; oracle: fails with the reserved-key error iff the key is literally one of the seven, otherwise succeeds keeping key and value. Time constructors (ExpirationClaim, NotBeforeClaim, IssuedAtClaim x &str/String): 19 instants (incl. 0000-01-01, 0001-01-01, 1969, 9999-12-31T23:59:59) x UTC offsets -23:59..+23:59 (every 7th plus the extremes; thorough: all) x 0..9 fractional digits, 'Z' and '-00:00' forms and leap seconds (seconds field 60, the examples of RFC 3339 section 5.8) must be accepted and kept verbatim; strings in the RFC 3339 layout with a month or day outside 01-12 / 01-31 must be refused (also read back through a built token); strings outside a deliberately broad recogniser of ISO 8601 date prefixes (optional sign + >= 4 digits) must be refused — incl. long ones whose multi-byte characters straddle every byte offset up to 130, and a panic is not a refusal; lenient renderings and possibly-date strings are recorded without verdict. distinct_nontrivial = distinct (class, form/constructor, key or text shape) tuples";
